@@ -206,6 +206,11 @@ def fmt(e):
         return '**' + fmt(e[1])
     if k == 'other':
         return '<%s>' % (e[1],)
+    if k == 'comp':
+        gens = ' '.join('for %s in %s%s' % (fmt(t), fmt(it), ''.join(' if ' + fmt(c) for c in conds)) for t, it, conds in e[3])
+        return '[%s %s]' % (fmt(e[2]), gens)
+    if k == 'lambda':
+        return 'lambda %s: %s' % (', '.join(e[1]), fmt(e[2]))
     return str(e)
 
 
